@@ -94,6 +94,42 @@ type c13Case struct {
 
 // ---------------------------------------------------------------------------------- rendering
 
+// c13RenderProgram is renderProgram for trees that may hold comment statements (the shared renderer prints none):
+// a comment is rendered as a placeholder statement and put back as its text, on the line of its neighbours.
+func c13RenderProgram(stmts []any) string {
+	var texts []string
+	var sub func(v any) any
+	sub = func(v any) any {
+		switch x := v.(type) {
+		case J:
+			if x["k"] == "cmt" {
+				texts = append(texts, fmt.Sprint(x["text"]))
+				return J{"k": "id", "n": fmt.Sprintf("c13cmt%d", len(texts)-1)}
+			}
+			r := J{}
+			for k, c := range x {
+				r[k] = sub(c)
+			}
+			return r
+		case []any:
+			r := make([]any, len(x))
+			for i, c := range x {
+				r[i] = sub(c)
+			}
+			return r
+		}
+		return v
+	}
+	src := renderProgram(sub(stmts).([]any))
+	for i := len(texts) - 1; i >= 0; i-- {
+		ph := fmt.Sprintf("c13cmt%d", i)
+		src = strings.ReplaceAll(src, ph+"; ", texts[i]+" ")
+		src = strings.ReplaceAll(src, "; "+ph, " "+texts[i])
+		src = strings.ReplaceAll(src, ph, texts[i])
+	}
+	return src
+}
+
 func c13RenderDef(op c13Op) string {
 	return op.Name + " = macro(" + strings.Join(op.Ps, ", ") + ") { quote(" + renderNode(op.Tpl, precLowest, styleNormal) + ") }"
 }
@@ -139,9 +175,9 @@ func c13Ins(ops []c13Op, layout int, macro bool) []c13In {
 			inputs = append(inputs, c13In{Src: c13FailSrc[op.Kind], Fail: op.Kind})
 		case "exp":
 			if macro {
-				inputs = append(inputs, c13In{Src: strings.Join(pending, "") + renderProgram(op.Prog)})
+				inputs = append(inputs, c13In{Src: strings.Join(pending, "") + c13RenderProgram(op.Prog)})
 			} else {
-				inputs = append(inputs, c13In{Src: renderProgram(op.Out)})
+				inputs = append(inputs, c13In{Src: c13RenderProgram(op.Out)})
 			}
 			pending = nil
 		}
@@ -401,13 +437,13 @@ func c13Run(cs c13Case, withEval bool) (res c13Real) {
 			continue
 		}
 		for _, tr := range [][]any{op.Prog, op.Out} {
-			p, errs := parseFile(renderProgram(tr))
+			p, errs := parseFile(c13RenderProgram(tr))
 			if len(errs) > 0 {
-				res.Skip = fmt.Sprintf("rendered source does not parse: %v: %q", errs, renderProgram(tr))
+				res.Skip = fmt.Sprintf("rendered source does not parse: %v: %q", errs, c13RenderProgram(tr))
 				return res
 			}
 			if canon(c13DumpNode(p)) != canon(c13Norm(tr)) {
-				res.Skip = fmt.Sprintf("rendered source parses to a different tree: %q", renderProgram(tr))
+				res.Skip = fmt.Sprintf("rendered source parses to a different tree: %q", c13RenderProgram(tr))
 				return res
 			}
 		}
@@ -462,7 +498,7 @@ func c13Run(cs c13Case, withEval bool) (res c13Real) {
 	if d := canon(c13DumpNode(e1.Node)); d != d1 {
 		res.Fail = append(res.Fail, c13Failure{c13SigRepeat, "evaluating the expanded tree changed it"})
 	}
-	e2 := c13Expand(s, buf, renderProgram(last.Prog))
+	e2 := c13Expand(s, buf, c13RenderProgram(last.Prog))
 	if e2.Panic != "" {
 		res.Fail = append(res.Fail, c13Failure{c13SigRepeat, "second expansion panicked: " + e2.Panic})
 	} else if canon(e2.Dump) != d1 {
@@ -470,7 +506,7 @@ func c13Run(cs c13Case, withEval bool) (res c13Real) {
 	}
 
 	// 3. (b) printed like the hand-substituted program, and re-parses to the same tree
-	hand, _ := parseFile(renderProgram(last.Out))
+	hand, _ := parseFile(c13RenderProgram(last.Out))
 	for _, compact := range []bool{false, true} {
 		pm, ph := c13Print(e1.Node, compact), c13Print(hand, compact)
 		pm, ph = reArityObs.ReplaceAllString(pm, "ARITY"), reArityObs.ReplaceAllString(ph, "ARITY") // wording of the error node is not compared
@@ -592,7 +628,7 @@ func c13Cfg(dev string, depth2 bool, stride, offset, coreSites, maxOps int, emit
 	if trace {
 		return s + "INIT TInit\nNEXT TNext\n"
 	}
-	return s + "INIT Init\nNEXT Next\nINVARIANTS Independent MacroFreeFixed ArityError ArgsFirst OracleRecorded RedefDiscriminates FailKeepsMacros\nPROPERTY StoreUnchanged\n"
+	return s + "INIT Init\nNEXT Next\nINVARIANTS Independent MacroFreeFixed ArityError ArgsFirst OracleRecorded RedefDiscriminates FailKeepsMacros PairDiscriminates\nPROPERTY StoreUnchanged\n"
 }
 
 type c13Verdict struct {
@@ -848,7 +884,7 @@ func checkC13(c *Ctx) {
 		return
 	}
 	var cases []c13Case
-	sessions := 0
+	sessions, pairs, pairsCollide := 0, 0, 0
 	feats := map[string]int{}
 	// TLC's workers emit in a run-dependent order: sort, so that ids, layouts and samples depend on the seed only
 	var lines []string
@@ -874,6 +910,17 @@ func checkC13(c *Ctx) {
 		last := g.H[len(g.H)-1]
 		feats[last.Mode+"/"+last.Feat]++
 		sessions++
+		if last.Mode == "pair" && len(g.H) == 3 && len(last.Prog) == 1 && len(g.H[1].Prog) == 1 {
+			// the pair is what it claims to be on the tree under test: two different trees, one compact text
+			pa, ea := parseFile(c13RenderProgram(g.H[1].Prog))
+			pb, eb := parseFile(c13RenderProgram(last.Prog))
+			if len(ea) == 0 && len(eb) == 0 && canon(c13DumpNode(pa)) != canon(c13DumpNode(pb)) {
+				pairs++
+				if c13Print(pa, true) == c13Print(pb, true) {
+					pairsCollide++
+				}
+			}
+		}
 		id := len(cases)
 		layout := (id + int(c.Seed)) % 2
 		cases = append(cases, c13Case{ID: id, Ops: g.H, Layout: layout})
@@ -891,6 +938,8 @@ func checkC13(c *Ctx) {
 		return
 	}
 	c.Cov("gen_cases_by_kind", feats)
+	c.Cov("argument_pairs_different_trees", pairs)
+	c.Cov("argument_pairs_same_compact_text", pairsCollide)
 	c.Cov("exhaustive", false)
 	c.Note("Macro GEN: %d states, %d sessions emitted, %d (session, layout) cases; stride=%d offset=%d core sites=%d depth2=%v maxops=%d",
 		r.Distinct, sessions, len(cases), stride, offset, coreSites, depth2, maxOps)
@@ -915,7 +964,7 @@ func checkC13(c *Ctx) {
 		}
 		c.Case(key, c13HasMacroCall(last.Prog, cs.Ops))
 		if i%1500 == 0 {
-			c.Sample(map[string]any{"macro_inputs": c13Inputs(cs.Ops, cs.Layout, true), "hand_substituted": renderProgram(last.Out),
+			c.Sample(map[string]any{"macro_inputs": c13Inputs(cs.Ops, cs.Layout, true), "hand_substituted": c13RenderProgram(last.Out),
 				"expanded_real": c13Print(reals[i].Exp.Node, true)})
 		}
 		recs = append(recs, c13TraceRec{ID: cs.ID, Defs: c13Defs(cs.Ops), Prog: last.Prog, Real: reals[i].Exp.Dump})
@@ -967,7 +1016,7 @@ func checkC13(c *Ctx) {
 			continue
 		}
 		if !v.OK {
-			what := fmt.Sprintf("ExpandMacros gave %q, Macro!ExpandStmts predicts %q", c13Print(rr.Exp.Node, true), strings.TrimSpace(renderProgram(last.Out)))
+			what := fmt.Sprintf("ExpandMacros gave %q, Macro!ExpandStmts predicts %q", c13Print(rr.Exp.Node, true), strings.TrimSpace(c13RenderProgram(last.Out)))
 			switch v.Dev {
 			case "CalleeNotRewritten", "CalleeNotRewritten+SharedArgAsMapKey":
 				c.Fail(c13SigCallee, what, c13Replay(cs))
@@ -1113,7 +1162,7 @@ func replayC13(rp map[string]any) (bool, string) {
 	}
 	last := cs.Ops[len(cs.Ops)-1]
 	if canon(rr.Exp.Dump) != canon(c13Norm(last.Out)) {
-		return false, fmt.Sprintf("ExpandMacros gave %q, expected %q", c13Print(rr.Exp.Node, true), strings.TrimSpace(renderProgram(last.Out)))
+		return false, fmt.Sprintf("ExpandMacros gave %q, expected %q", c13Print(rr.Exp.Node, true), strings.TrimSpace(c13RenderProgram(last.Out)))
 	}
 	if len(rr.Fail) > 0 {
 		return false, rr.Fail[0].Sig + ": " + rr.Fail[0].What
